@@ -118,6 +118,8 @@ def main():
     if job.get("layout_seed") is not None:
         stats = install_layout(job["layout_seed"])
         install_ambient(job["layout_seed"], job.get("ambient") or {})
+    if job.get("recursion_limit"):
+        sys.setrecursionlimit(int(job["recursion_limit"]))
     if job.get("gc") == "off":
         gc.disable()
     if job.get("junk"):
